@@ -76,12 +76,12 @@ def items():
 
     def op_read(t):
         from tucan.io import graph_from_molfile_text
-        return graph_repr(graph_from_molfile_text(t))
+        return graph_from_molfile_text(t)
 
     def op_canon(t):
         from tucan.canonicalization import canonicalize_molecule
         from tucan.io import graph_from_molfile_text
-        return graph_repr(canonicalize_molecule(graph_from_molfile_text(t)))
+        return canonicalize_molecule(graph_from_molfile_text(t))
 
     def op_tucan(t):
         from tucan.canonicalization import canonicalize_molecule
@@ -104,7 +104,7 @@ def items():
 
     def op_parse(s):
         from tucan.parser.parser import graph_from_tucan
-        return graph_repr(graph_from_tucan(s))
+        return graph_from_tucan(s)
 
     def op_norm(s):
         from tucan.canonicalization import canonicalize_molecule
@@ -115,7 +115,7 @@ def items():
     def op_permute(t):
         from tucan.graph_utils import permute_molecule
         from tucan.io import graph_from_molfile_text
-        return graph_repr(permute_molecule(graph_from_molfile_text(t), random_seed=0.42))
+        return permute_molecule(graph_from_molfile_text(t), random_seed=0.42)
 
     for name, t in texts.items():
         for opname, op in (("read", op_read), ("canon", op_canon), ("tucan", op_tucan), ("write", op_write),
@@ -129,9 +129,26 @@ def items():
     return out
 
 
+def scribble(obj):
+    """The caller owns what it got back: overwrite it. A later call must not see any of this."""
+    try:
+        for _, d in obj.nodes(data=True):
+            d["element_symbol"] = "Xx"
+            d["scribble"] = True
+        obj.add_edge(10 ** 6, 10 ** 6 + 1, bond_type=99)
+        obj.graph["scribble"] = True
+    except Exception:
+        pass
+
+
 def run_item(fn):
     try:
-        return "OK:" + fn()
+        obj = fn()
+        if isinstance(obj, str):
+            return "OK:" + obj
+        r = "OK:" + graph_repr(obj)
+        scribble(obj)
+        return r
     except BaseException as ex:  # noqa
         return f"EXC:{type(ex).__module__}.{type(ex).__name__}:{ex}"
 
